@@ -263,7 +263,8 @@ class SBytes:
     def __ne__(self, o):
         return E.s_not(self.__eq__(o))
 
-    __hash__ = None  # type: ignore
+    def __hash__(self) -> int:
+        raise Unsupported("hash of symbolic bytes")
 
     def index(self, sub, start: int = 0, end: Optional[int] = None) -> int:
         sub_items = items_of(sub) if not isinstance(sub, int) else [sub]
